@@ -146,6 +146,9 @@ def run(chk: harness.Check):
                            f"result of the {flag} test in {region} is not used by any branch or bool::then",
                            sample=f"{g.where}: result drives {g.uses} branch(es)/then-closure(s)")
 
+    # ---- D5 core separator precedence ---------------------------------------------------------
+    d5_core_separator(chk, F)
+
     # ---- D3 propagation -----------------------------------------------------------------------
     allow_const = {a["function"]: a for a in tab.get("constant_extensions", [])}
     n_prop = 0
@@ -234,3 +237,57 @@ def run(chk: harness.Check):
 def _short(ck):
     from inventory import short
     return short(ck)
+
+
+def d5_core_separator(chk, F):
+    """`{value%unit}` is core syntax: the ADVANCED_UNITS reading must decline whenever the quantity
+    contains a `%` token anywhere, before it consumes anything."""
+    from cfgq import calls_to, call_result_edges, arg_expr
+    fs = [f for f in F.find("parser::quantity::parse_advanced_quantity") if not f.is_closure()]
+    if len(fs) != 1:
+        chk.fail("anchor-missing", "parse_advanced_quantity", "", "anchor-missing: parse_advanced_quantity not found")
+        return
+    f = fs[0]
+    scans = []
+    for b, t in calls_to(f, "Iterator>::any"):
+        recv = arg_expr(f, t, 0)
+        ls = leaves(recv)
+        whole = any(l.endswith("BlockParser::tokens") for l in ls) and not any(
+            l.endswith(("consume_while", "consume_rest", "BlockParser::rest", "BlockParser::parsed", "BlockParser::until")) for l in ls)
+        pred = [n[2] for n in walk(arg_expr(f, t, 1)) if n[0] == "agg" and n[1] == "closure"]
+        tests_percent = False
+        for pk in pred:
+            pf = F.funcs.get(pk)
+            if pf is None:
+                continue
+            # matches!(t.kind, T![%]) lowers to a switch on the TokenKind discriminant with a Percent arm
+            for i, j, st in pf.iter_stmts():
+                rv = st.get("rv", {})
+                if rv.get("k") == "discr" and norm(rv.get("ty", "")).endswith("TokenKind"):
+                    val = [v[0] for v in rv["variants"] if v[1] == "Percent"]
+                    for sb, sw in pf.iter_terms("switch"):
+                        if val and any(x[0] == val[0] for x in sw["targets"]):
+                            tests_percent = True
+        if whole and tests_percent:
+            scans.append((b, t))
+    if not scans:
+        chk.fail("C02.D5-core-separator", "parse_advanced_quantity|scan", f"{f.file}:{f.line}",
+                 "parse_advanced_quantity no longer scans the whole quantity (bp.tokens()) for a `%` token before parsing: "
+                 "core `{value%unit}` quantities could be re-read under ADVANCED_UNITS")
+        return
+    b, t = scans[0]
+    te, fe = call_result_edges(f, b)
+    consumers = []
+    for suffix in ("BlockParser::consume_while", "BlockParser::consume_rest", "BlockParser::ws_comments", "quantity::scaling_lock",
+                   "BlockParser::bump_any", "BlockParser::consume", "BlockParser::until"):
+        consumers += [cb for cb, _ in calls_to(f, suffix)]
+    ok = bool(fe) and bool(consumers) and all(any(f.edge_dominates(e, cb) for e in fe) for cb in consumers)
+    chk.expect(ok, "C02.D5-core-separator", "parse_advanced_quantity|precedence", f.where(b),
+               "the advanced-units reading consumes tokens on a path where a `%` separator was not excluded for the whole quantity",
+               sample=f"{f.where(b)}: every consuming call is dominated by the no-`%` outcome of the scan over bp.tokens()")
+    # the `%`-present outcome returns None without consuming
+    some = [i for i, j, st in f.iter_stmts() if st["k"] == "assign" and st["place"]["l"] == 0 and st["rv"].get("k") == "agg" and st["rv"].get("variant") == "Some"]
+    reach = f.reach_from(te[0][1]) if te else set()
+    chk.expect(bool(te) and not any(x in reach for x in some + consumers), "C02.D5-core-separator", "parse_advanced_quantity|declines", f.where(b),
+               "when a `%` token is present parse_advanced_quantity can still consume tokens or return Some",
+               sample=f"{f.where(b)}: the `%`-present outcome returns None directly")
